@@ -553,6 +553,16 @@ class WebSocket:
             #   but we sanity-check it here just in case.
             assert event_type == EventType.WS_DISCONNECT
 
+            receiver = self._buffered_receiver
+            if receiver._max_queue > 0 and not receiver.client_disconnected:
+                # NOTE: This event does not come from the client: the receive
+                #   pump was stopped by close() running in another task while
+                #   we were waiting. The connection state is close()'s to
+                #   manage (the server may yet refuse the close event, in
+                #   which case the connection stays open and is still owed
+                #   a close).
+                raise errors.WebSocketDisconnected(WSCloseCode.NORMAL)
+
             self._state = _WebSocketState.CLOSED
             self._close_code = event.get('code', WSCloseCode.NORMAL)
             raise errors.WebSocketDisconnected(self._close_code)
